@@ -85,6 +85,11 @@ CLAIMED = {
     note="PARTIAL: executor sequencing (serial, before tests) and the exit status are observed end-to-end, not proved; rule truth (platform/filter) is an input decided by C05/C06. Trusted: Lean kernel; Model/Scripts; scenario generator's independent rule truth; scripted binary.",
     technique="Lean 4 proof (decision logic + induction over env-file lines) + end-to-end correspondence",
     design="§5 C18"),
+ "C19": dict(
+    text="Lean 4 theorems on the archive model, for EVERY file tree, depth, entry path and crash point: an included path contributes exactly the regular files and symlinks at most `depth` levels below it, other kinds never (collect_depth, by mutual structural induction on the tree); each destination path is archived once, what was archived first stays, every offered path is present (dedup_no_duplicates, dedup_first_wins, dedup_complete); an entry accepted by the extractor's validation has only normal components, the first being `target`, so it lands under <dest>/target whatever the path, and any `..`, root or leading `.` component is rejected (accepted_components, validated_paths_stay_inside, reject_bad_components); remapping rewrites exactly the target-dir prefix (path_mapper_prefix, path_mapper_other); in the temp-file-then-rename protocol the destination is old-or-complete after every prefix of a successful creation and untouched by a failed one (atomic_all_or_nothing, failed_creation_changes_nothing). Tied to the code in-process (real archive_to_file / extract_archive on generated trees, include rules and raw-header hostile archives, model answers compared) and end-to-end (CLI archive/list/run round trip with SHA-256 comparison; SIGKILL at random moments).",
+    note="PARTIAL: contents fidelity, tar::unpack_in's link protection and rename atomicity are third-party/kernel behaviour: observed (digests, canaries, kill points), not proved. Trusted: Lean kernel; Model/Archive; harness p_archive; scripted workspace.",
+    technique="Lean 4 proof (structural induction on trees, decision logic on path components, crash-point state machine) + differential correspondence + end-to-end",
+    design="§5 C19"),
 }
 NOT_YET = "not yet claimed: model/theorems for this property are still being built (see DESIGN.md §5); no other technique is substituted"
 
